@@ -743,6 +743,58 @@ theorem C01_recreate_any_in_bounds (o : Org) (hwf : o.WF) (addr : Int → Int) (
       rw [this]; exact (C01_allocate o addr c.w c.h c.a hwf hno').2.2.2.2.2
     · exact (C01_recreate_step o hwf _ s0 c hin hno hb).2.2
 
+/-! ### channel views of derived views (through C02's generated `make` bodies) -/
+
+section
+open GilVerif.Model.C02
+
+/-- **channel views of derived views** (`nth_channel_view` / `kth_channel_view<n>` between any transformation lists `ts0`, `ts1`, on a
+    byte-addressed image): the single-channel pixel (x,y) -- `sizeof(channel)` bytes -- lies inside the allocation: inside the source pixel
+    for interleaved images (pixel = `nch` channels), in plane `n` for planar ones.  Goes through the generated `make` bodies and `adjacent`
+    predicate (`C02_channel_view_compose`): a channel view that drops the x step of a step view breaks this theorem. -/
+theorem C01_channel_view_in_bounds (o : Org) (w h a m : Int) (kth : Bool) (t : ChanSrc) (n : Int) (ts0 ts1 : List Xform) (x y : Int)
+    (hwf : o.WF) (hb : o.b2m = 1) (hno : NoOvf o w h a m) (hc : 0 < t.chanSize) (hn0 : 0 ≤ n) (hn : n < t.nch)
+    (hpix : if o.planar then o.mstep = t.chanSize ∧ o.nch = t.nch else o.mstep = t.nch * t.chanSize)
+    (hadj : t.isStep = false → (t.planar = true ∨ t.nch = 1) → (applyMemAll ts0 (imageView o w h a m)).xs = t.chanSize)
+    (hv : validAll (ts0 ++ ts1) (imageView o w h a m))
+    (hr : (applyMemAll ts1 (chanViewMem kth t (if o.planar then fun k => k * (rowUnits o w a * h) else fun k => k * t.chanSize) n
+            (applyMemAll ts0 (imageView o w h a m)))).InRange x y) :
+    0 ≤ (applyMemAll ts1 (chanViewMem kth t (if o.planar then fun k => k * (rowUnits o w a * h) else fun k => k * t.chanSize) n
+            (applyMemAll ts0 (imageView o w h a m)))).addr x y
+    ∧ (applyMemAll ts1 (chanViewMem kth t (if o.planar then fun k => k * (rowUnits o w a * h) else fun k => k * t.chanSize) n
+            (applyMemAll ts0 (imageView o w h a m)))).addr x y + t.chanSize ≤ allocBytes o w h a := by
+  obtain ⟨e, hin⟩ := GilVerif.Props.C02.C02_channel_view_compose kth t _ n ts0 ts1 (imageView o w h a m) hadj hv hno.1 hno.2.1 x y hr
+  rw [e]
+  have hw := C01_image_in_bounds o w h a m _ _ hwf hno hin
+  unfold footprint footprintF at hw
+  cases hp : o.planar
+  · simp only [hp, Bool.false_eq_true, if_false, hb, show (1 : Int) ≠ 8 by decide] at hw hpix ⊢
+    obtain ⟨q1, q2⟩ := hw _ (List.mem_singleton.2 rfl)
+    simp only [] at q1 q2
+    have h1 : 0 ≤ n * t.chanSize := Int.mul_nonneg hn0 (by omega)
+    have h2 : (n + 1) * t.chanSize ≤ t.nch * t.chanSize := Int.mul_le_mul_of_nonneg_right (by omega) (by omega)
+    have e2 : (n + 1) * t.chanSize = n * t.chanSize + t.chanSize := by ring
+    constructor <;> omega
+  · simp only [hp, if_true, hb, show (1 : Int) ≠ 8 by decide, if_false] at hw hpix ⊢
+    have hmem : ((imageView o w h a m).addr (phiAll (ts0 ++ ts1) (imageView o w h a m) (x, y)).1 (phiAll (ts0 ++ ts1) (imageView o w h a m) (x, y)).2
+        + ((n.toNat : Nat) : Int) * (rowUnits o w a * h), o.mstep) ∈
+        (List.range o.nch.toNat).map (fun (k : Nat) => ((imageView o w h a m).addr (phiAll (ts0 ++ ts1) (imageView o w h a m) (x, y)).1
+          (phiAll (ts0 ++ ts1) (imageView o w h a m) (x, y)).2 + (k : Int) * (rowUnits o w a * h), o.mstep)) :=
+      List.mem_map.2 ⟨n.toNat, List.mem_range.2 (by omega), rfl⟩
+    obtain ⟨q1, q2⟩ := hw _ hmem
+    simp only [] at q1 q2
+    have en : ((n.toNat : Nat) : Int) = n := by omega
+    rw [en] at q1 q2
+    constructor <;> omega
+
+/-- planar rgb8 5x4: channel 2 of the left-right flipped view (a step view); its last pixel is the last byte of plane 2 -/
+example : (applyMemAll [] (chanViewMem false ⟨true, true, 3, 1⟩ (fun k => k * (rowUnits ⟨1, 1, true, 3, [], 0⟩ 5 0 * 4)) 2
+      (applyMemAll [.flipLR] (imageView ⟨1, 1, true, 3, [], 0⟩ 5 4 0 0)))).InRange 0 3
+    ∧ (applyMemAll [] (chanViewMem false ⟨true, true, 3, 1⟩ (fun k => k * (rowUnits ⟨1, 1, true, 3, [], 0⟩ 5 0 * 4)) 2
+      (applyMemAll [.flipLR] (imageView ⟨1, 1, true, 3, [], 0⟩ 5 4 0 0)))).addr 0 3 = 59
+    ∧ allocBytes ⟨1, 1, true, 3, [], 0⟩ 5 4 0 = 60 := by decide
+end
+
 /-! ### access by iterator and by locator (through C03) -/
 
 section
